@@ -25,6 +25,9 @@ Fixpoint lookup (r : rel) (l : files) : option content :=
   | (k, c) :: t => if str_eqb k r then Some c else lookup r t
   end.
 
+(* a listing read as a function *)
+Definition fm_of (l : files) : fmap := fun r => lookup r l.
+
 Definition remove_key (r : rel) (l : files) : files :=
   filter (fun kc => negb (str_eqb (fst kc) r)) l.
 
